@@ -278,6 +278,14 @@ def h_isinstance(ctx, fr, args, kw):
     o = ops()
     obj, cls = args
     classes = cls if isinstance(cls, tuple) else (cls,)
+    from vf.e1 import hier as _H
+    if _H.is_hpath_value(obj):
+        from spydrnet.util.hierarchical_reference import HRef as _HRef
+        is_h = any(k is _HRef for k in classes)
+        if isinstance(obj, _H.HPath):
+            return is_h
+        r, _ = lift(lambda x: (is_h if isinstance(x, _H.HPath) else isinstance(x, classes)), obj)
+        return r
     if isinstance(obj, Ref):
         r = False
         for c in sorted(obj.cands):
